@@ -4,7 +4,7 @@
    says it behaves as the model Pat/Ere.v on the regex strings inside that model (checked against the real
    libc by the correspondence run).  [st0] is the arbitrary prior state of the (re-used / recycled) object. *)
 From Coq Require Import List NArith Bool.
-From Muscle Require Import Gen.Consts Pat.Ere Pat.EreProofs Pat.Translate Pat.Simple Pat.RangeProofs Pat.UvProofs Pat.SimpleParse Pat.PatSpec Pat.PatProofs.
+From Muscle Require Import Gen.Consts Pat.Ere Pat.EreProofs Pat.Translate Pat.Simple Pat.RangeProofs Pat.UvProofs Pat.SimpleParse Pat.RangeParse Pat.PatSpec Pat.PatProofs.
 Import ListNotations.
 Local Open Scope N_scope.
 
@@ -108,6 +108,15 @@ Theorem C15_range_doc_partial :
     xorb neg (existsb (fun c => clause_has c v) cs).
 Proof. exact range_doc. Qed.
 Print Assumptions C15_range_doc_partial.
+
+(* The same over pattern STRINGS: [read_ranges] is an executable reader of the documented range-list form. *)
+Theorem C15_range_doc_str_partial :
+  forall engine p neg cs st0 k v,
+    read_ranges p = Some (neg, cs) -> v <= u32_max ->
+    matches (fst (set_pattern engine st0 p true)) (repeat 48 k ++ print_num v) =
+    xorb neg (existsb (fun c => clause_has c v) cs).
+Proof. exact range_doc_str. Qed.
+Print Assumptions C15_range_doc_str_partial.
 
 (* the witnesses replayed on the real code as findings F24, F25, F26 *)
 Theorem C15_class_meta_refuted :
@@ -213,4 +222,10 @@ Proof. vm_compute. repeat split; reflexivity. Qed.
 
 (* the reader accepts the example pattern string and returns the example tree *)
 Example C15_sparse_example : sparse (print_pattern false ex_alt) = Some ex_alt.
+Proof. vm_compute. reflexivity. Qed.
+
+(* the range reader accepts the example string  ~<7,20-10,-3,4000000000->  *)
+Example C15_read_ranges_example :
+  read_ranges (print_range_pattern true [RSingle 7; RBetween 20 10; RUpTo 3; RFrom 4000000000]) =
+  Some (true, [RSingle 7; RBetween 20 10; RUpTo 3; RFrom 4000000000]).
 Proof. vm_compute. reflexivity. Qed.
